@@ -47,6 +47,13 @@ def _spec(module):
             'units': {'cJSON.c': 'tree_bad.c', 'cJSON_Utils.c': 'utils_min.c'},
             'rules': [tree.tab3, tree.tab14, tree.eff6, tree.c12_structure, tree.lst4, tree.lst2, tree.lst3],
         }]
+    if module == 'own':
+        from . import own, parse
+        return [{
+            'units': {'cJSON.c': 'own_bad.c', 'cJSON_Utils.c': 'utils_min.c'},
+            'rules': [lambda units, R: own.own_engine(units, R), own.own5, own.own6, own.own7,
+                      lambda units, R: own.own4_dangling(units, R, unit_names=('cJSON.c',)), parse.tab17],
+        }]
     raise AnalysisBroken('no fixture spec for module %s' % module)
 
 
